@@ -8,8 +8,12 @@ import (
 	"encoding/json"
 	"fmt"
 	"os"
+	"path/filepath"
 	"sort"
 
+	"github.com/Trendyol/go-dcp/config"
+	"github.com/Trendyol/go-dcp/metadata"
+	"github.com/Trendyol/go-dcp/models"
 	"github.com/Trendyol/go-dcp/wrapper"
 )
 
@@ -25,7 +29,92 @@ type op struct {
 	v    int
 }
 
+// tornFile: the REAL file backend on the REAL wrapper map. A checkpoint file is saved and then cut at every
+// byte (a crash inside os.WriteFile); whatever Load() hands out for a vBucket must be exactly the document
+// that was saved for it - a torn file may yield fewer documents, never a partially decoded one. Also: a
+// failed UnmarshalJSON of the wrapper leaves the map as it was.
+func tornFile() {
+	res := &result{}
+	dir, err := os.MkdirTemp("", "tornfile")
+	if err != nil {
+		res.Violations = append(res.Violations, "tmpdir: "+err.Error())
+	} else {
+		defer os.RemoveAll(dir)
+		fn := filepath.Join(dir, "ckpt.json")
+		cfg := &config.Dcp{}
+		cfg.Metadata.Type = "file"
+		cfg.Metadata.Config = map[string]string{"fileName": fn}
+		md := metadata.NewFSMetadata(cfg)
+		doc := func(u, s, a, b uint64) *models.CheckpointDocument {
+			return &models.CheckpointDocument{BucketUUID: "uuid-b", Checkpoint: &models.CheckpointDocumentCheckpoint{VbUUID: u, SeqNo: s,
+				Snapshot: &models.CheckpointDocumentSnapshot{StartSeqNo: a, EndSeqNo: b}}}
+		}
+		states := []map[uint16]*models.CheckpointDocument{
+			{0: doc(111, 7, 5, 9), 1: doc(222, 55, 50, 60)},
+			{0: doc(111, 7, 5, 9), 1: doc(222, 55, 50, 60), 2: doc(18446744073709551615, 9223372036854775808, 9223372036854775807, 18446744073709551615)},
+			{3: doc(1, 1, 1, 1)},
+		}
+		show := func(d *models.CheckpointDocument) string {
+			if d == nil || d.Checkpoint == nil {
+				return "<nil>"
+			}
+			c := d.Checkpoint
+			sn := "<nil>"
+			if c.Snapshot != nil {
+				sn = fmt.Sprintf("[%d,%d]", c.Snapshot.StartSeqNo, c.Snapshot.EndSeqNo)
+			}
+			return fmt.Sprintf("{vbUUID %d seqNo %d snapshot %s bucket %q}", c.VbUUID, c.SeqNo, sn, d.BucketUUID)
+		}
+		for si, st := range states {
+			_ = md.Save(st, map[uint16]bool{}, "uuid-b")
+			full, _ := os.ReadFile(fn)
+			var ids []uint16
+			for k := range st {
+				ids = append(ids, k)
+			}
+			for cut := 0; cut <= len(full); cut++ {
+				res.Evaluations++
+				res.Sequences++
+				_ = os.WriteFile(fn, full[:cut], 0o644)
+				got, _, err := md.Load(ids, "uuid-b")
+				if err != nil || got == nil {
+					continue // refused as a whole
+				}
+				n := 0
+				got.Range(func(vb uint16, d *models.CheckpointDocument) bool {
+					n++
+					want, ok := st[vb]
+					if !ok {
+						res.Violations = append(res.Violations, fmt.Sprintf("state %d cut at byte %d of %d: Load() hands out a checkpoint for vb%d, which was never saved: %s", si, cut, len(full), vb, show(d)))
+					} else if show(d) != show(want) {
+						res.Violations = append(res.Violations, fmt.Sprintf("state %d cut at byte %d of %d: Load() hands out %s for vb%d, the saved checkpoint is %s (partially decoded = mixture)", si, cut, len(full), show(d), vb, show(want)))
+					}
+					return true
+				})
+				if cut == len(full) && n != len(st) {
+					res.Violations = append(res.Violations, fmt.Sprintf("state %d: the complete file loads %d of %d checkpoints", si, n, len(st)))
+				}
+				// the wrapper itself: a failed decode leaves the map untouched
+				m := wrapper.CreateConcurrentSwissMap[uint16, *models.CheckpointDocument](8)
+				m.Store(9, doc(9, 9, 9, 9))
+				if err := m.UnmarshalJSON(full[:cut]); err != nil && (m.Count() != 1) {
+					res.Violations = append(res.Violations, fmt.Sprintf("state %d cut at byte %d: UnmarshalJSON failed (%v) but left %d entries in the map (want the 1 that was there)", si, cut, err, m.Count()))
+				}
+			}
+		}
+	}
+	if len(res.Violations) > 10 {
+		res.Violations = res.Violations[:10]
+	}
+	b, _ := json.Marshal(res)
+	fmt.Println(string(b))
+}
+
 func main() {
+	if len(os.Args) > 1 && os.Args[1] == "tornfile" {
+		tornFile()
+		return
+	}
 	maxLen := 5
 	if len(os.Args) > 1 && os.Args[1] == "thorough" {
 		maxLen = 6
